@@ -252,6 +252,8 @@ class Sched:
         loop = self.loop
         while True:
             self._service(0)
+            if self.stepping_hook is not None and (loop._ready or any(not h._cancelled for h in loop._scheduled)):
+                self.stepping_hook()
             if not loop.step():
                 if self._service(0):
                     continue
